@@ -222,7 +222,7 @@ def strip_generics(p):
     n = len(p)
     while i < n:
         ch = p[i]
-        if ch == "<" and i >= 2 and p[i - 2:i] == "::":
+        if ch == "<" and i >= 2 and p[i - 2:i] == "::" and not p.startswith("<impl ", i):
             # generic args group: skip to matching '>'
             depth = 1
             i += 1
